@@ -2,6 +2,7 @@
 
 # pylint: disable=E1103
 import math
+import operator
 from typing import Any, Optional, Tuple, Union
 
 import numpy as np
@@ -461,6 +462,15 @@ class JakesSampleGenerator(FadingSampleGenerator):
         if num_samples is None:
             num_samples = 1
 
+        # The number of samples must be a non-negative integer. Any integer
+        # type (Python int, numpy integer scalars) is converted to a Python
+        # int so that the sample index never takes a fixed-width type, and
+        # anything else is refused before the state of the generator is
+        # touched.
+        num_samples = operator.index(num_samples)
+        if num_samples < 0:
+            raise ValueError("num_samples must not be negative")
+
         # Generate a 1D numpy with the time samples. The time of each sample
         # is computed from its integer index: there are always exactly
         # `num_samples` of them and sample number `k` is at `k * Ts` no
@@ -468,10 +478,6 @@ class JakesSampleGenerator(FadingSampleGenerator):
         # time with np.arange yields a wrong number of samples once the
         # time is large compared with Ts).
         t = (self._sample_index + np.arange(num_samples)) * self.Ts
-
-        # Update the index of the next sample that should be generated when
-        # _generate_time_samples is called again.
-        self._sample_index += int(num_samples)
 
         # Now we will change the shape of the 't' variable to an
         # appropriated shape for later use.
@@ -486,7 +492,7 @@ class JakesSampleGenerator(FadingSampleGenerator):
             # Note that we use '1' for all dimensions except the last one
             # and numpy will replicate to the correct value later thanks to
             # broadcast.
-            t.shape = [1] * (len(self._shape) + 1) + [int(num_samples)]
+            t.shape = [1] * (len(self._shape) + 1) + [num_samples]
         else:
             # Since self._shape is None, we only need one dimension for the
             # taps (that is, self.L) and another dimension for the actual
@@ -496,6 +502,10 @@ class JakesSampleGenerator(FadingSampleGenerator):
             # and numpy will replicate to the correct value later thanks to
             # broadcast.
             t.shape = (1, num_samples)
+
+        # Update the index of the next sample that should be generated when
+        # _generate_time_samples is called again.
+        self._sample_index += num_samples
 
         return t
 
@@ -544,7 +554,10 @@ class JakesSampleGenerator(FadingSampleGenerator):
         num_samples : int
             How many samples to skip.
         """
-        self._sample_index += int(num_samples)
+        num_samples = operator.index(num_samples)
+        if num_samples < 0:
+            raise ValueError("num_samples must not be negative")
+        self._sample_index += num_samples
 
     def get_similar_fading_generator(self) -> Any:
         """
